@@ -502,3 +502,73 @@ func (fp *ForcedPlanner) ResetSeen() {
 }
 
 var _ planner.Manager = (*SeededPlanner)(nil)
+
+// ---------------------------------------------------------------------------------------------
+// first level of the recursive strategy: an object with 2-4 first-level usersets (nested groups /
+// parent folders); the user is a direct member of one of them (often not the first), of a deeper
+// one, or of none.  Returns the scenario and the request (object, relation) on the top object.
+
+func GenerateC02FirstLevel(r *rec.Rand) (*Scenario, string, string) {
+	s := &Scenario{}
+	k := r.Range(2, 4)
+	names := []string{"p1", "p2", "p3", "p4", "q1", "q2"}
+	rec.Shuffle(r, names)
+	parents := names[:k]
+	deeper := names[k:]
+	var typ, rel string
+	edge := func(from, to string) Tuple {
+		if typ == "group" {
+			return Tuple{Obj: "group:" + from, Rel: "member", User: "group:" + to + "#member"}
+		}
+		return Tuple{Obj: "folder:" + from, Rel: "parent", User: "folder:" + to}
+	}
+	direct := func(o, u string) Tuple {
+		if typ == "group" {
+			return Tuple{Obj: "group:" + o, Rel: "member", User: u}
+		}
+		return Tuple{Obj: "folder:" + o, Rel: "viewer", User: u}
+	}
+	if r.Chance(1, 2) {
+		typ, rel = "group", "member"
+		s.Shape = "c02-first-level-userset"
+		s.Types = []TypeDef{{Name: "user"},
+			{Name: "group", Rels: []RelDef{{Name: "member", RW: This(), Restr: []Restr{RObj("user"), RSet("group", "member")}}}}}
+	} else {
+		typ, rel = "folder", "viewer"
+		s.Shape = "c02-first-level-ttu"
+		s.Types = []TypeDef{{Name: "user"},
+			{Name: "folder", Rels: []RelDef{
+				{Name: "parent", RW: This(), Restr: []Restr{RObj("folder")}},
+				{Name: "viewer", RW: Union(This(), TTU("parent", "viewer")), Restr: []Restr{RObj("user")}}}}}
+	}
+	for _, p := range parents {
+		s.Tuples = append(s.Tuples, edge("top", p))
+	}
+	// a second level below some parents
+	for i, d := range deeper {
+		if r.Chance(1, 2) {
+			s.Tuples = append(s.Tuples, edge(parents[i%k], d))
+		}
+	}
+	switch x := r.Intn(10); {
+	case x < 6: // direct member of one first-level userset, preferably not the first
+		j := r.Intn(k)
+		if k > 1 && r.Chance(2, 3) {
+			j = 1 + r.Intn(k-1)
+		}
+		s.Tuples = append(s.Tuples, direct(parents[j], "user:a"))
+	case x < 8: // member of a deeper one only
+		s.Tuples = append(s.Tuples, direct(deeper[0], "user:a"))
+		if r.Chance(1, 2) {
+			s.Tuples = append(s.Tuples, edge(parents[k-1], deeper[0]))
+		}
+	case x < 9: // several first-level memberships
+		s.Tuples = append(s.Tuples, direct(parents[k-1], "user:a"), direct(parents[0], "user:a"))
+	default: // none (other users only)
+	}
+	s.Tuples = append(s.Tuples, direct(parents[0], "user:b"))
+	if r.Chance(1, 2) {
+		rec.Shuffle(r, s.Tuples)
+	}
+	return s, typ + ":top", rel
+}
